@@ -814,18 +814,28 @@ pub fn run(sb: &Sandbox, w: &World) -> Result<History, TraceError> {
     let mut pty_slave: Option<std::fs::File> = None;
     if w.stdout_tty {
         use std::os::fd::FromRawFd;
-        let (mut master, mut slave) = (0i32, 0i32);
-        let r = unsafe { libc::openpty(&mut master, &mut slave, std::ptr::null_mut(), std::ptr::null(), std::ptr::null()) };
-        if r != 0 {
-            return Err(te(format!("openpty: {}", std::io::Error::last_os_error())));
-        }
-        unsafe {
+        // both sides are opened close-on-exec from the start: neither may leak into a child that
+        // another worker thread forks meanwhile (an inherited descriptor would shift that
+        // child's descriptor numbers and with them its history)
+        let (master, slave) = unsafe {
+            let master = libc::posix_openpt(libc::O_RDWR | libc::O_NOCTTY | libc::O_CLOEXEC);
+            if master < 0 || libc::grantpt(master) != 0 || libc::unlockpt(master) != 0 {
+                return Err(te(format!("posix_openpt: {}", std::io::Error::last_os_error())));
+            }
+            let mut name = [0 as libc::c_char; 128];
+            if libc::ptsname_r(master, name.as_mut_ptr(), name.len()) != 0 {
+                return Err(te(format!("ptsname_r: {}", std::io::Error::last_os_error())));
+            }
+            let slave = libc::open(name.as_ptr(), libc::O_RDWR | libc::O_NOCTTY | libc::O_CLOEXEC);
+            if slave < 0 {
+                return Err(te(format!("open pty slave: {}", std::io::Error::last_os_error())));
+            }
             let mut t: libc::termios = std::mem::zeroed();
             libc::tcgetattr(slave, &mut t);
             libc::cfmakeraw(&mut t);
             libc::tcsetattr(slave, libc::TCSANOW, &t);
-            libc::fcntl(master, libc::F_SETFD, libc::FD_CLOEXEC);
-        }
+            (master, slave)
+        };
         pty_slave = Some(unsafe { std::fs::File::from_raw_fd(slave) });
         let mut m = unsafe { std::fs::File::from_raw_fd(master) };
         pty_reader = Some(std::thread::spawn(move || {
